@@ -26,6 +26,7 @@ EXPLANATION = (
     ' Also evaluated here: fork-copy / per-transaction copy completeness (C20 R20.1): block fields and prank records written by cheatcodes must not be shared with other paths or transactions.'
     ' Round 4: a read-back after deal/store skips an earlier write only under `== unsat` (C02 R02.1 at Exec.select / balance_of).'
     " Round 5: resolve_prank returns (sender, origin) in that order; an Exec's block environment is bound once and is not part of the frame rollback (R14.6)."
+    ' Round 7: the pranked sender reaches the callee through the caller field of the sub-message for every opcode that opens a sender context, CALLCODE included (C09 R09.2).'
 )
 ASSUMPTIONS = ["Forge-std / SVM signatures (hash-verified against the repo's constants)", "dataclass default_factory creates a fresh object per instance"]
 
